@@ -118,6 +118,9 @@ class C01(common.Prop):
         w = case.get("_impl_write")
         if w is None or w[0] != "ok":
             return None           # a loud failure is allowed
+        msg = pg.rewrite_after_edit(case)
+        if msg:
+            return {"what": msg, "fields": ["rewrite-after-edit"]}
         exp = self.expected(case)
         for st, r in case.get("_impl_reads", {}).items():
             if r[0] != "ok":
